@@ -481,7 +481,7 @@ def monitor(traces, invariants, workdir):
             handle.write(json.dumps({'tid': trace['tid'], 'cfg': trace['cfg'], 'lines': trace['lines']}) + '\n')
     cfg = os.path.join(workdir, 'SeqTrace.cfg')
     write_cfg(cfg, invariants)
-    res = tlc.run('SeqTrace', cfg, workers=8, timeout=1500, args=['-continue'], env={'TRACE_FILE': trace_file})
+    res = tlc.run('SeqTrace', cfg, workers=1, timeout=1500, args=['-continue'], env={'TRACE_FILE': trace_file})
     hits = parse_violations(res.output)
     return res, hits
 
@@ -635,7 +635,7 @@ def _conf_group(job):
             for trace in traces:
                 handle.write(json.dumps({'tid': trace['tid'], 'lines': [
                     {'op': line['op'], 'obs': line['obs']} for line in trace['lines']]}) + '\n')
-        res = tlc.run('MCConf', 'MCConf.cfg', workers=2, timeout=900, args=['-continue'], cwd=workdir,
+        res = tlc.run('MCConf', 'MCConf.cfg', workers=1, timeout=900, args=['-continue'], cwd=workdir,
                       env={'TRACE_FILE': trace_file}, java_opts=[f'-DTLA-Library={common.SPEC}'])
         stuck = []
         for chunk in re.split(r'(?=Error: Invariant \w+ is violated)', res.output):
